@@ -137,6 +137,7 @@ type Exec struct {
 	heapPureCache map[string]int
 	recDefining   map[string]bool
 	qvarCounter   int
+	linking       bool
 }
 
 func NewExec(w *World, c *Ctx) *Exec {
@@ -1103,10 +1104,10 @@ func (ex *Exec) assumeInvariants(p *Path, invs []*Clause) {
 }
 
 func (ex *Exec) execRange(p *Path, st *ast.RangeStmt) []outcome {
-	ex.loopOrd++
-	ord := ex.loopOrd
-	if len(ex.inlineStack) > 0 {
-		ord = -1
+	ord := -1
+	if len(ex.inlineStack) == 0 {
+		ex.loopOrd++
+		ord = ex.loopOrd
 	}
 	coll := ex.eval(p, st.X)
 	invs := ex.loopClauses(ord)
@@ -1268,10 +1269,10 @@ func (ex *Exec) execRange(p *Path, st *ast.RangeStmt) []outcome {
 }
 
 func (ex *Exec) execFor(p *Path, st *ast.ForStmt) []outcome {
-	ex.loopOrd++
-	ord := ex.loopOrd
-	if len(ex.inlineStack) > 0 {
-		ord = -1
+	ord := -1
+	if len(ex.inlineStack) == 0 {
+		ex.loopOrd++
+		ord = ex.loopOrd
 	}
 	if st.Init != nil {
 		outs := ex.execStmt(p, st.Init)
